@@ -243,7 +243,18 @@ impl Real {
                     ("t_string!(scoped leaf)", Box::new(move || t_string!(scoped, leaf, name = "N").to_string())),
                 ];
                 self.accessors.push((c, readers));
-                let memo = Memo::new(move |_| t_string!(ctx, hello).to_string());
+                let memo = Memo::new(move |_| {
+                    // through the context and through a scoped view of it (a scoped context is itself a derived signal)
+                    let scoped = scope_i18n!(ctx, group.deep);
+                    let a = t_string!(ctx, hello).to_string();
+                    let b = t_string!(scoped, leaf, name = "N").to_string();
+                    let suffix = a.trim_start_matches("hello-").to_string();
+                    if b == format!("leaf-{suffix} N") {
+                        a
+                    } else {
+                        format!("{a} BUT scoped view gives {b}")
+                    }
+                });
                 let sink = std::sync::Arc::new(std::sync::Mutex::new(None));
                 let sink2 = sink.clone();
                 self.owners[c].with(|| {
